@@ -1080,4 +1080,724 @@ theorem parse_settles {rp rp' : Req.Parser} {bs : Bytes} {y : Yield} (hw : WFSta
           rw [hcnf] at hq'
           exact ⟨_, hq', hr.symm, rfl, rfl, Or.inr ⟨hr, c, v, hs, rfl⟩⟩
 
+/-! ## 7. The exact flag discipline of one poll (`woken`, `readWaker`, the mutex)
+
+Every (sub-)call either completes without touching `woken`/`readWaker`, or returns `Pending` for
+exactly one of three reasons: a scripted transient `Pending` (sets `woken`, leaves `readWaker`), a
+read parked on an empty input (sets `readWaker`, leaves `woken`), or a lock future that found the
+mutex taken (touches neither flag; nobody will wake the task).  Unlike section 3 this needs no
+hypothesis on the flags before the call, so it also covers a poll started with a stale `readWaker`. -/
+
+/-- neither flag was touched -/
+def Same (t t' : Transport) : Prop := t'.woken = t.woken ∧ t'.readWaker = t.readWaker
+
+/-- `p`: the call returned `Pending`; `m'`: the mutex afterwards; `P`: what holds when a read parked. -/
+def Outcome (t t' : Transport) (m' : MutexSt) (p : Bool) (P : Prop) : Prop :=
+  (Same t t' ∧ (p = true → m' ≠ none)) ∨
+  (p = true ∧ t'.woken = true ∧ t'.readWaker = t.readWaker) ∨
+  (p = true ∧ t'.readWaker = true ∧ t'.woken = t.woken ∧ P)
+
+theorem Same.refl (t : Transport) : Same t t := ⟨rfl, rfl⟩
+theorem Same.trans {a b c : Transport} (h1 : Same a b) (h2 : Same b c) : Same a c :=
+  ⟨h2.1.trans h1.1, h2.2.trans h1.2⟩
+
+theorem Outcome.idle (t : Transport) (m : MutexSt) (P : Prop) : Outcome t t m false P :=
+  Or.inl ⟨Same.refl t, nofun⟩
+
+theorem Outcome.idle' {t t' : Transport} (h : Same t t') (m : MutexSt) (P : Prop) : Outcome t t' m false P :=
+  Or.inl ⟨h, nofun⟩
+
+theorem Outcome.blocked (t : Transport) {m : MutexSt} (hm : m ≠ none) (P : Prop) : Outcome t t m true P :=
+  Or.inl ⟨Same.refl t, fun _ => hm⟩
+
+theorem Outcome.same {t t' : Transport} {m : MutexSt} {P : Prop} (h : Outcome t t' m false P) : Same t t' := by
+  rcases h with ⟨h, _⟩ | ⟨h, _⟩ | ⟨h, _⟩
+  · exact h
+  · cases h
+  · cases h
+
+theorem Outcome.pre {t t1 t2 : Transport} {m : MutexSt} {p : Bool} {P : Prop} (hs : Same t t1)
+    (h : Outcome t1 t2 m p P) : Outcome t t2 m p P := by
+  rcases h with ⟨h, hm⟩ | ⟨hp, hw, hr⟩ | ⟨hp, hr, hw, hP⟩
+  · exact Or.inl ⟨hs.trans h, hm⟩
+  · exact Or.inr (Or.inl ⟨hp, hw, hr.trans hs.2⟩)
+  · exact Or.inr (Or.inr ⟨hp, hr, hw.trans hs.1, hP⟩)
+
+theorem Outcome.mono {t t' : Transport} {m : MutexSt} {p : Bool} {P Q : Prop} (h : Outcome t t' m p P)
+    (f : P → Q) : Outcome t t' m p Q := by
+  rcases h with h | h | ⟨hp, hr, hw, hP⟩
+  · exact Or.inl h
+  · exact Or.inr (Or.inl h)
+  · exact Or.inr (Or.inr ⟨hp, hr, hw, f hP⟩)
+
+/-- an outcome that never blames the mutex holds for any mutex -/
+theorem Outcome.anyMutex {t t' : Transport} {p : Bool} {P : Prop} (h : Outcome t t' none p P)
+    (m : MutexSt) : Outcome t t' m p P := by
+  rcases h with ⟨h, hm⟩ | h | h
+  · refine Or.inl ⟨h, fun hp => absurd rfl (hm hp)⟩
+  · exact Or.inr (Or.inl h)
+  · exact Or.inr (Or.inr h)
+
+def pollP {α : Type} : Poll α → Bool | .pending => true | _ => false
+def oP : ORes → Bool | .pending => true | _ => false
+def iP : IRes → Bool | .pending => true | _ => false
+def wP : WRes → Bool | .pending => true | _ => false
+def cP : CRes → Bool | .pending => true | _ => false
+def hP : HRes → Bool | .pending => true | _ => false
+def prP : PRes → Bool | .pending => true | _ => false
+
+/-! ### primitives -/
+
+theorem read_oc {t t' : Transport} {cap : Nat} {res : Poll (Except IoErr Bytes)}
+    (h : t.read cap = (t', res)) : Outcome t t' none (pollP res) (t'.input = []) := by
+  unfold Transport.read at h
+  split at h
+  · cases h; exact Outcome.idle _ _ _
+  · split at h
+    simp only at h
+    split at h
+    · cases h; exact Or.inr (Or.inl ⟨rfl, rfl, rfl⟩)
+    · cases h; exact Outcome.idle' ⟨rfl, rfl⟩ _ _
+    · split at h
+      · rename_i hie
+        have hin : t.input = [] := by simpa using hie
+        split at h
+        · cases h; exact Or.inr (Or.inr ⟨rfl, rfl, rfl, hin⟩)
+        · split at h
+          · cases h; exact Outcome.idle' ⟨rfl, rfl⟩ _ _
+          · cases h; exact Or.inr (Or.inr ⟨rfl, rfl, rfl, hin⟩)
+          · cases h; exact Outcome.idle' ⟨rfl, rfl⟩ _ _
+      · cases h; exact Outcome.idle' ⟨rfl, rfl⟩ _ _
+
+theorem writeV_oc (t : Transport) (sl : List Bytes) (tag : String) :
+    Outcome t (t.writeV sl tag).1 none (pollP (t.writeV sl tag).2) False := by
+  unfold Transport.writeV
+  generalize sl.flatten = data
+  by_cases hd : data.isEmpty = true
+  · simp only [hd, if_true]; exact Outcome.idle' ⟨rfl, rfl⟩ _ _
+  · simp only [hd, Bool.false_eq_true, if_false]
+    rcases t.wr with _ | ⟨a, rest⟩
+    · exact Outcome.idle' ⟨rfl, rfl⟩ _ _
+    · cases a
+      · exact Outcome.idle' ⟨rfl, rfl⟩ _ _
+      · exact Outcome.idle' ⟨rfl, rfl⟩ _ _
+      · exact Or.inr (Or.inl ⟨rfl, rfl, rfl⟩)
+      · exact Outcome.idle' ⟨rfl, rfl⟩ _ _
+      · exact Outcome.idle' ⟨rfl, rfl⟩ _ _
+
+theorem writeV_oc' {t t' : Transport} {sl : List Bytes} {tag : String} {r : Poll (Except IoErr Nat)}
+    (h : t.writeV sl tag = (t', r)) : Outcome t t' none (pollP r) False := by
+  have := writeV_oc t sl tag; rwa [h] at this
+
+theorem write_oc {t t' : Transport} {buf : Bytes} {r : Poll (Except IoErr Nat)}
+    (h : t.write buf = (t', r)) : Outcome t t' none (pollP r) False := by
+  unfold Transport.write at h; exact writeV_oc' h
+
+theorem flush_oc {t t' : Transport} {r : Poll (Except IoErr Unit)}
+    (h : t.flush = (t', r)) : Outcome t t' none (pollP r) False := by
+  unfold Transport.flush at h
+  split at h
+  simp only at h
+  split at h
+  · cases h; exact Outcome.idle' ⟨rfl, rfl⟩ _ _
+  · cases h; exact Or.inr (Or.inl ⟨rfl, rfl, rfl⟩)
+  · cases h; exact Outcome.idle' ⟨rfl, rfl⟩ _ _
+
+/-! ### write-only loops -/
+
+theorem writeAllLoop_oc : ∀ (fuel : Nat) (buf : Bytes) (t : Transport) {rest : Bytes} {t' : Transport} {res : ORes},
+    writeAllLoop fuel buf t = (rest, t', res) → Outcome t t' none (oP res) False := by
+  intro fuel
+  induction fuel with
+  | zero => intro buf t rest t' res h; simp only [writeAllLoop] at h; cases h; exact Outcome.idle _ _ _
+  | succ n ih =>
+    intro buf t rest t' res h
+    simp only [writeAllLoop] at h
+    split at h
+    · cases h; exact Outcome.idle _ _ _
+    · split at h
+      · cases h; exact write_oc ‹_›
+      · cases h; exact write_oc ‹_›
+      · cases h; exact write_oc ‹_›
+      · exact Outcome.pre (write_oc ‹_›).same (ih _ _ h)
+
+theorem outLoop_oc : ∀ (fuel : Nat) (sp : Str.Parser) (t : Transport) {sp' : Str.Parser} {t' : Transport} {res : ORes},
+    outLoop fuel sp t = (sp', t', res) → Outcome t t' none (oP res) False := by
+  intro fuel
+  induction fuel with
+  | zero => intro sp t sp' t' res h; simp only [outLoop] at h; cases h; exact Outcome.idle _ _ _
+  | succ n ih =>
+    intro sp t sp' t' res h
+    simp only [outLoop] at h
+    split at h
+    · cases h; exact Outcome.idle _ _ _
+    · split at h
+      · cases h; exact write_oc ‹_›
+      · cases h; exact write_oc ‹_›
+      · cases h; exact write_oc ‹_›
+      · exact Outcome.pre (write_oc ‹_›).same (ih _ _ h)
+
+theorem writeLoop_oc : ∀ (fuel : Nat) (w : Writer) (head buf : Bytes) (t : Transport)
+    {w' : Writer} {t' : Transport} {res : WRes},
+    writeLoop fuel w head buf t = (w', t', res) → Outcome t t' none (wP res) False := by
+  intro fuel
+  induction fuel with
+  | zero => intro w head buf t w' t' res h; simp only [writeLoop] at h; cases h; exact Outcome.idle _ _ _
+  | succ n ih =>
+    intro w head buf t w' t' res h
+    simp only [writeLoop] at h
+    split at h
+    · cases h; exact Outcome.idle _ _ _
+    · split at h
+      · cases h; exact Outcome.idle _ _ _
+      · split at h
+        · cases h; exact writeV_oc' ‹_›
+        · cases h; exact writeV_oc' ‹_›
+        · cases h; exact writeV_oc' ‹_›
+        · split at h
+          · cases h; exact Outcome.idle' (writeV_oc' ‹_›).same _ _
+          · exact Outcome.pre (writeV_oc' ‹_›).same (ih _ _ _ _ h)
+
+/-! ### the lock futures -/
+
+theorem lockPoll_blocked {l : LockSt} {m : MutexSt} {me : Nat} {l' : LockSt} {m' : MutexSt}
+    (h : lockPoll l m me = (l', m', false)) : m' ≠ none := by
+  unfold lockPoll at h
+  split at h
+  · cases h
+  · split at h
+    · cases h
+    · cases h; exact fun hh => nomatch hh
+
+theorem pollWrite_oc {w : Writer} {me : Nat} {buf : Bytes} {m : MutexSt} {t : Transport}
+    {w' : Writer} {m' : MutexSt} {t' : Transport} {res : WRes}
+    (h : w.pollWrite me buf m t = (w', m', t', res)) : Outcome t t' m' (wP res) False := by
+  simp only [Writer.pollWrite] at h
+  split at h
+  · cases h; exact Outcome.idle _ _ _
+  · split at h
+    · cases h; exact Outcome.idle _ _ _
+    · split at h
+      · cases h; exact Outcome.idle _ _ _
+      · split at h
+        · cases h; exact Outcome.idle _ _ _
+        · rename_i w1 _ _ _
+          cases hl : lockPoll w1.lock m (me + 1) with
+          | mk l x =>
+            obtain ⟨m1, got⟩ := x
+            rw [hl] at h
+            simp only at h
+            cases got with
+            | false =>
+              simp only [Bool.not_false, if_true] at h
+              cases h
+              exact Outcome.blocked _ (lockPoll_blocked hl) _
+            | true =>
+              simp only [Bool.not_true, Bool.false_eq_true, if_false] at h
+              split at h
+              · cases h; exact (writeLoop_oc _ _ _ _ _ ‹_›).anyMutex _
+              · cases h; exact (writeLoop_oc _ _ _ _ _ ‹_›).anyMutex _
+
+theorem pollFlush_oc {w : Writer} {me : Nat} {m : MutexSt} {t : Transport}
+    {w' : Writer} {m' : MutexSt} {t' : Transport} {res : WRes}
+    (h : w.pollFlush me m t = (w', m', t', res)) : Outcome t t' m' (wP res) False := by
+  simp only [Writer.pollFlush] at h
+  split at h
+  · cases h; exact Outcome.idle _ _ _
+  · cases hl : lockPoll (if w.lock == .none then LockSt.polling else w.lock) m (me + 1) with
+    | mk l x =>
+      obtain ⟨m1, got⟩ := x
+      rw [hl] at h
+      simp only at h
+      cases got with
+      | false =>
+        simp only [Bool.not_false, if_true] at h
+        cases h
+        exact Outcome.blocked _ (lockPoll_blocked hl) _
+      | true =>
+        simp only [Bool.not_true, Bool.false_eq_true, if_false] at h
+        split at h
+        · cases h; exact (flush_oc ‹_›).anyMutex _
+        · cases h; exact (flush_oc ‹_›).anyMutex _
+        · cases h; exact (flush_oc ‹_›).anyMutex _
+
+theorem pollOutput_oc {r : AReq} {m : MutexSt} {t : Transport}
+    {r' : AReq} {m' : MutexSt} {t' : Transport} {res : ORes}
+    (h : r.pollOutput m t = (r', m', t', res)) : Outcome t t' m' (oP res) False := by
+  simp only [AReq.pollOutput] at h
+  split at h
+  · split at h
+    · cases h; exact Outcome.idle _ _ _
+    · cases h; exact Outcome.idle _ _ _
+  · cases hl : lockPoll (if r.lock == .none then LockSt.polling else r.lock) m 0 with
+    | mk l x =>
+      obtain ⟨m1, got⟩ := x
+      rw [hl] at h
+      simp only at h
+      cases got with
+      | false =>
+        simp only [Bool.not_false, if_true] at h
+        cases h
+        exact Outcome.blocked _ (lockPoll_blocked hl) _
+      | true =>
+        simp only [Bool.not_true, Bool.false_eq_true, if_false] at h
+        split at h
+        · cases h; exact (outLoop_oc _ _ _ ‹_›).anyMutex _
+        · cases h; exact (outLoop_oc _ _ _ ‹_›).anyMutex _
+
+/-! ### `poll_input`, `writeable()`, `record_boundary()` -/
+
+theorem inLoop_oc : ∀ (fuel : Nat) (r : AReq) (new : Bytes) (dest : Option Nat) (m : MutexSt) (t : Transport)
+    {r' : AReq} {m' : MutexSt} {t' : Transport} {res : IRes},
+    inLoop fuel r new dest m t = (r', m', t', res) → dest ≠ some 0 → r.sp.parsed = [] →
+    Outcome t t' m' (iP res) (Parked r' t') := by
+  intro fuel
+  induction fuel with
+  | zero =>
+    intro r new dest m t r' m' t' res h _ _
+    simp only [inLoop] at h; cases h; exact Outcome.idle _ _ _
+  | succ k ih =>
+    intro r new dest m t r' m' t' res h hd hp
+    simp only [inLoop] at h
+    cases hparse : r.sp.parse new dest with
+    | mk sp pr =>
+      rw [hparse] at h
+      cases pr with
+      | panic s => simp only at h; cases h; exact Outcome.idle _ _ _
+      | err e => simp only at h; cases h; exact Outcome.idle _ _ _
+      | ok st =>
+        simp only at h
+        split at h
+        · cases h; exact Outcome.idle _ _ _
+        · rename_i hc
+          have hse : st.streamEnd = false ∧ st.stream = 0 := by
+            simp only [Bool.or_eq_true, decide_eq_true_eq, not_or, Bool.not_eq_true] at hc
+            exact ⟨hc.1, by omega⟩
+          obtain ⟨hshape, hfit, hpar, hact⟩ := parse_ok_facts hparse hd hse.2
+          have hrest : Rest sp := by
+            rcases hshape with h | ⟨_, _, h⟩
+            · exact h
+            · rw [hse.1] at h; cases h
+          cases hpo : AReq.pollOutput { r with sp := sp.compress } m t with
+          | mk r1 x =>
+            obtain ⟨m1, t1, ores⟩ := x
+            obtain ⟨_, hsp1, _, _, hout1, _⟩ := pollOutput_spec hpo
+            have hoc1 := pollOutput_oc hpo
+            have hpo' : AReq.pollOutput { sp := sp.compress, lock := r.lock, writeable := r.writeable } m t
+                = (r1, m1, t1, ores) := hpo
+            rw [hpo'] at h
+            cases ores with
+            | pending => simp only at h; cases h; exact hoc1.mono (fun hf => nomatch hf)
+            | err e => simp only at h; cases h; exact hoc1.mono (fun hf => nomatch hf)
+            | panic s => simp only at h; cases h; exact hoc1.mono (fun hf => nomatch hf)
+            | ready =>
+              simp only at h
+              have hs1 : Same t t1 := hoc1.same
+              have hq1 : Quiescent r1.sp := by
+                rw [hsp1]
+                exact Quiescent.frame ⟨hrest, hpar hp, hfit⟩ rfl rfl rfl rfl rfl rfl (compress_fs sp)
+              have hact1 : r1.sp.stream ≠ none := by rw [hsp1]; exact hact hse.1
+              cases hrd : t1.read r1.sp.free with
+              | mk t2 pr =>
+                rw [hrd] at h
+                have hoc2 := (read_oc hrd).anyMutex m1
+                cases pr with
+                | pending =>
+                  simp only at h; cases h
+                  exact Outcome.pre hs1 (hoc2.mono (fun hin => ⟨hout1 rfl, hq1, hact1, hin⟩))
+                | ready ex =>
+                  have hs2 : Same t t2 := hs1.trans hoc2.same
+                  cases ex with
+                  | error e => simp only at h; cases h; exact Outcome.idle' hs2 _ _
+                  | ok bs =>
+                    cases bs with
+                    | nil => simp only at h; cases h; exact Outcome.idle' hs2 _ _
+                    | cons b bs =>
+                      simp only at h
+                      exact Outcome.pre hs2 (ih _ _ _ _ _ h hd hq1.parsed)
+
+theorem pollInput_oc {r : AReq} {dest : Option Nat} {m : MutexSt} {t : Transport}
+    {r' : AReq} {m' : MutexSt} {t' : Transport} {res : IRes}
+    (h : r.pollInput dest m t = (r', m', t', res)) : Outcome t t' m' (iP res) (Parked r' t') := by
+  have key : ∀ (hd : dest ≠ some 0) (hp : r.sp.parsed = []),
+      (match r.pollOutput m t with
+        | (r, m, t, .pending) => (r, m, t, IRes.pending)
+        | (r, m, t, .err e) => (r, m, t, .err e)
+        | (r, m, t, .panic s) => (r, m, t, .panic s)
+        | (r, m, t, .ready) => inLoop (t.input.length + 2) r [] dest m t) = (r', m', t', res) →
+      Outcome t t' m' (iP res) (Parked r' t') := by
+    intro hd hp h
+    cases hpo : r.pollOutput m t with
+    | mk r1 x =>
+      obtain ⟨m1, t1, ores⟩ := x
+      obtain ⟨_, hsp1, _, _, _, _⟩ := pollOutput_spec hpo
+      have hoc1 := pollOutput_oc hpo
+      rw [hpo] at h
+      cases ores with
+      | pending => simp only at h; cases h; exact hoc1.mono (fun hf => nomatch hf)
+      | err e => simp only at h; cases h; exact hoc1.mono (fun hf => nomatch hf)
+      | panic s => simp only at h; cases h; exact hoc1.mono (fun hf => nomatch hf)
+      | ready =>
+        simp only at h
+        exact Outcome.pre hoc1.same (inLoop_oc _ _ _ _ _ _ h hd (by rw [hsp1]; exact hp))
+  simp only [AReq.pollInput] at h
+  rcases hb : r.sp.parsed with _ | ⟨b, bs⟩
+  · cases dest with
+    | none =>
+      simp only [hb] at h
+      exact key (by simp) hb h
+    | some n =>
+      cases n with
+      | zero => simp only [hb] at h; cases h; exact Outcome.idle _ _ _
+      | succ n =>
+        simp only [hb] at h
+        exact key (by simp) hb h
+  · cases dest with
+    | none => simp only [hb] at h; cases h; exact Outcome.idle _ _ _
+    | some n =>
+      cases n with
+      | zero => simp only [hb] at h; cases h; exact Outcome.idle _ _ _
+      | succ n => simp only [hb] at h; cases h; exact Outcome.idle _ _ _
+
+theorem writeablePoll_oc {r : AReq} {started : Bool} {m : MutexSt} {t : Transport}
+    {r' : AReq} {b : Bool} {m' : MutexSt} {t' : Transport} {res : ORes}
+    (h : r.writeablePoll started m t = (r', b, m', t', res)) : Outcome t t' m' (oP res) (Parked r' t') := by
+  simp only [AReq.writeablePoll] at h
+  split at h
+  · cases h; exact Outcome.idle _ _ _
+  · split at h
+    · cases h; exact Outcome.idle _ _ _
+    · split at h
+      all_goals
+        have hp := pollInput_oc ‹_›
+        cases h
+        exact hp
+
+/-- `record_boundary()`: `Pending` only by a transient `Pending` or a parked read. -/
+abbrev BOc (t : Transport) (sp' : Str.Parser) (t' : Transport) (res : ORes) : Prop :=
+  Outcome t t' none (oP res) (BParked sp' ∧ t'.input = [])
+
+theorem boundaryCont_oc {n : Nat}
+    (ih : ∀ (sp : Str.Parser) (new : Bytes) (t : Transport) {sp' : Str.Parser} {t' : Transport} {res : ORes},
+      boundaryLoop n sp new t = (sp', t', res) → BOc t sp' t' res)
+    {sp : Str.Parser} {t : Transport} {sp' : Str.Parser} {t' : Transport} {res : ORes}
+    (hsp : sp.isRecordBoundary = false → sp.parsed = [] → Rest sp ∧ sp.freeStart ≤ sp.cap)
+    (h : boundaryLoop.cont sp t n = (sp', t', res)) : BOc t sp' t' res := by
+  simp only [boundaryLoop.cont] at h
+  split at h
+  · cases h; exact Outcome.idle _ _ _
+  · rename_i hnb
+    split at h
+    · cases h; exact Outcome.idle _ _ _
+    · rename_i hpe
+      have hb : sp.isRecordBoundary = false := by simpa using hnb
+      have hp : sp.parsed = [] := by simpa using hpe
+      obtain ⟨hrest, hfit⟩ := hsp hb hp
+      have hq : BParked sp.compress :=
+        ⟨hb, Quiescent.frame ⟨hrest, hp, hfit⟩ rfl rfl rfl rfl rfl rfl (compress_fs sp)⟩
+      cases hrd : t.read sp.compress.free with
+      | mk t2 pr =>
+        rw [hrd] at h
+        have hoc := read_oc hrd
+        cases pr with
+        | pending => simp only at h; cases h; exact hoc.mono (fun hin => ⟨hq, hin⟩)
+        | ready ex =>
+          cases ex with
+          | error e => simp only at h; cases h; exact Outcome.idle' hoc.same _ _
+          | ok bs =>
+            cases bs with
+            | nil => simp only at h; cases h; exact Outcome.idle' hoc.same _ _
+            | cons b bs =>
+              simp only at h
+              exact Outcome.pre hoc.same (ih _ _ _ h)
+
+theorem boundaryLoop_oc : ∀ (fuel : Nat) (sp : Str.Parser) (new : Bytes) (t : Transport)
+    {sp' : Str.Parser} {t' : Transport} {res : ORes},
+    boundaryLoop fuel sp new t = (sp', t', res) → BOc t sp' t' res := by
+  intro fuel
+  induction fuel with
+  | zero =>
+    intro sp new t sp' t' res h; simp only [boundaryLoop] at h; cases h
+    exact Outcome.idle _ _ _
+  | succ n ih =>
+    intro sp new t sp' t' res h
+    simp only [boundaryLoop] at h
+    cases hparse : sp.parse new none with
+    | mk sp1 pr =>
+      rw [hparse] at h
+      cases pr with
+      | panic s => simp only at h; cases h; exact Outcome.idle _ _ _
+      | err e =>
+        simp only at h
+        split at h
+        · refine boundaryCont_oc ih (fun hb _ => ?_) h
+          rw [parse_err_boundary hparse] at hb; cases hb
+        · cases h; exact Outcome.idle _ _ _
+      | ok st =>
+        simp only at h
+        refine boundaryCont_oc ih (fun hb hp => ?_) h
+        obtain ⟨hshape, hfit, -, -⟩ := parse_ok_facts hparse (by simp) (parse_none_stream hparse hp)
+        refine ⟨?_, hfit⟩
+        rcases hshape with h | ⟨h1, h2, -⟩
+        · exact h
+        · simp [Str.Parser.isRecordBoundary, h1, h2] at hb
+
+theorem closeBoundary_oc {sp : Str.Parser} {resume : Bool} {t : Transport}
+    {sp' : Str.Parser} {t' : Transport} {res : ORes}
+    (hinv : resume = true → BParked sp)
+    (h : closeBoundary sp resume t = (sp', t', res)) : BOc t sp' t' res := by
+  simp only [closeBoundary] at h
+  split at h
+  · rename_i hres
+    cases hrd : t.read sp.free with
+    | mk t2 pr =>
+      rw [hrd] at h
+      have hoc := read_oc hrd
+      cases pr with
+      | pending => simp only at h; cases h; exact hoc.mono (fun hin => ⟨hinv hres, hin⟩)
+      | ready ex =>
+        cases ex with
+        | error e => simp only at h; cases h; exact Outcome.idle' hoc.same _ _
+        | ok bs =>
+          cases bs with
+          | nil => simp only at h; cases h; exact Outcome.idle' hoc.same _ _
+          | cons b bs =>
+            simp only at h
+            exact Outcome.pre hoc.same (boundaryLoop_oc _ _ _ _ h)
+  · split at h
+    · cases h; exact Outcome.idle _ _ _
+    · exact boundaryLoop_oc _ _ _ _ h
+
+/-! ### `close` -/
+
+theorem closeP1_oc {r : AReq} {st : CloseSt} {m : MutexSt} {t : Transport} :
+    (∀ {r1 m1 t1 st1}, closeP1 r st m t = .ok (r1, m1, t1, st1) → Same t t1) ∧
+    (∀ {r' cs' m' t' res}, closeP1 r st m t = .error (r', cs', m', t', res) →
+      Outcome t t' m' (cP res) (cs' = .inWriteable ∧ Parked r' t')) := by
+  constructor
+  all_goals
+    intros
+    rename_i h
+    simp only [closeP1] at h
+    repeat' (split at h)
+    all_goals first
+      | (cases h; exact Same.refl _)
+      | (have hp := writeablePoll_oc ‹_›
+         cases h
+         first
+          | exact hp.same
+          | exact hp.mono (fun hk => ⟨rfl, hk⟩))
+      | cases h
+
+theorem closeP2Tail_oc {r : AReq} {m : MutexSt} {sp0 : Str.Parser} {resume : Bool} {t : Transport}
+    (hinv : resume = true → BParked sp0) :
+    (∀ {r2 m2 t2 st2}, closeP2Tail r m (closeBoundary sp0 resume t) = .ok (r2, m2, t2, st2) → Same t t2) ∧
+    (∀ {r' cs' m' t' res}, closeP2Tail r m (closeBoundary sp0 resume t) = .error (r', cs', m', t', res) →
+      Outcome t t' m' (cP res) (cs' = .inBoundary ∧ BParked r'.sp ∧ t'.input = [])) := by
+  cases hb : closeBoundary sp0 resume t with
+  | mk sp x =>
+    obtain ⟨t1, ores⟩ := x
+    have hoc := (closeBoundary_oc hinv hb).anyMutex m
+    constructor
+    · intro r2 m2 t2 st2 h
+      cases ores <;> simp only [closeP2Tail] at h <;> cases h
+      exact hoc.same
+    · intro r' cs' m' t' res h
+      cases ores <;> simp only [closeP2Tail] at h <;> cases h
+      · exact hoc.mono (fun hk => ⟨rfl, hk⟩)
+      · exact hoc.mono (fun hk => ⟨rfl, hk⟩)
+      · exact hoc.mono (fun hk => ⟨rfl, hk⟩)
+
+theorem closeP2_oc {r : AReq} {m : MutexSt} {t : Transport} {st : CloseSt}
+    (hinv : st = .inBoundary → BParked r.sp) :
+    (∀ {r2 m2 t2 st2}, closeP2 r m t st = .ok (r2, m2, t2, st2) → Same t t2) ∧
+    (∀ {r' cs' m' t' res}, closeP2 r m t st = .error (r', cs', m', t', res) →
+      Outcome t t' m' (cP res) (cs' = .inBoundary ∧ BParked r'.sp ∧ t'.input = [])) := by
+  cases st with
+  | start => rw [closeP2_start]; exact closeP2Tail_oc (fun hh => nomatch hh)
+  | inBoundary => rw [closeP2_inBoundary]; exact closeP2Tail_oc (fun _ => hinv rfl)
+  | inWriteable =>
+    rw [closeP2_other _ _ _ _ (Or.inr rfl)]
+    exact ⟨fun h => by cases h; exact Same.refl _, fun h => nomatch h⟩
+  | writeOut a b =>
+    rw [closeP2_other _ _ _ _ (Or.inl rfl)]
+    exact ⟨fun h => by cases h; exact Same.refl _, fun h => nomatch h⟩
+  | writeEnd a =>
+    rw [closeP2_other _ _ _ _ (Or.inl rfl)]
+    exact ⟨fun h => by cases h; exact Same.refl _, fun h => nomatch h⟩
+
+theorem finishEnd_oc {r : AReq} {rest : Bytes} {m : MutexSt} {t : Transport}
+    {r' : AReq} {cs' : CloseSt} {m' : MutexSt} {t' : Transport} {res : CRes}
+    (h : closePoll.finishEnd r rest m t = (r', cs', m', t', res)) : Outcome t t' m' (cP res) False := by
+  simp only [closePoll.finishEnd] at h
+  repeat' (split at h)
+  all_goals first
+    | (cases h; exact (writeAllLoop_oc _ _ _ ‹_›).anyMutex _)
+    | (cases h; exact Outcome.idle' (writeAllLoop_oc _ _ _ ‹_›).same _ _)
+
+theorem closeP4_oc {r : AReq} {st : CloseSt} {m : MutexSt} {t : Transport}
+    {r' : AReq} {cs' : CloseSt} {m' : MutexSt} {t' : Transport} {res : CRes}
+    (h : closeP4 r m t st = (r', cs', m', t', res)) : Outcome t t' m' (cP res) False := by
+  simp only [closeP4] at h
+  repeat' (split at h)
+  all_goals first
+    | (cases h; exact (writeAllLoop_oc _ _ _ ‹_›).anyMutex _)
+    | (cases h; exact Outcome.idle _ _ _)
+    | exact Outcome.pre (writeAllLoop_oc _ _ _ ‹_›).same (finishEnd_oc h)
+    | exact finishEnd_oc h
+
+theorem closeFrom3_oc {r : AReq} {m : MutexSt} {t : Transport} {status : ExitStatus} {alive : Nat}
+    {r' : AReq} {cs' : CloseSt} {m' : MutexSt} {t' : Transport} {res : CRes}
+    (h : closeFrom3 r m t status alive = (r', cs', m', t', res)) : Outcome t t' m' (cP res) False := by
+  unfold closeFrom3 at h
+  rw [closeP3_start] at h
+  by_cases ha : alive > 0
+  · simp only [ha, if_true] at h
+    cases h; exact Outcome.idle _ _ _
+  · simp only [ha, if_false] at h
+    exact closeP4_oc h
+
+/-- what holds when `close` has parked on a read -/
+def CloseParked (r' : AReq) (cs' : CloseSt) (t' : Transport) : Prop :=
+  t'.input = [] ∧ ((cs' = .inWriteable ∧ Parked r' t') ∨ (cs' = .inBoundary ∧ BParked r'.sp))
+
+theorem closePoll_oc {r : AReq} {st : CloseSt} {status : ExitStatus} {alive : Nat} {m : MutexSt}
+    {t : Transport} {r' : AReq} {cs' : CloseSt} {m' : MutexSt} {t' : Transport} {res : CRes}
+    (h : closePoll r st status alive m t = (r', cs', m', t', res))
+    (hinv : st = .inBoundary → BParked r.sp) :
+    Outcome t t' m' (cP res) (CloseParked r' cs' t') := by
+  rcases closePoll_cases h with ⟨_, h1⟩ | ⟨_, r1, m1, t1, st1, h1, h2⟩ |
+      ⟨_, r1, m1, t1, st1, r2, m2, t2, h1, h2, _, h3⟩ | ⟨hl, h4⟩
+  · exact (closeP1_oc.2 h1).mono (fun ⟨hc, hk⟩ => ⟨hk.drained, Or.inl ⟨hc, hk⟩⟩)
+  · have hinv1 : st1 = .inBoundary → BParked r1.sp := by
+      intro hs
+      rcases (closeP1_ok h1).2 with ⟨_, h⟩ | ⟨_, h, hr, _⟩
+      · rw [h] at hs; cases hs
+      · rw [hr]; exact hinv (h ▸ hs)
+    exact Outcome.pre (closeP1_oc.1 h1)
+      (((closeP2_oc hinv1).2 h2).mono (fun ⟨hc, hb, hin⟩ => ⟨hin, Or.inr ⟨hc, hb⟩⟩))
+  · have hinv1 : st1 = .inBoundary → BParked r1.sp := by
+      intro hs
+      rcases (closeP1_ok h1).2 with ⟨_, h⟩ | ⟨_, h, hr, _⟩
+      · rw [h] at hs; cases hs
+      · rw [hr]; exact hinv (h ▸ hs)
+    exact Outcome.pre ((closeP1_oc.1 h1).trans ((closeP2_oc hinv1).1 h2))
+      ((closeFrom3_oc h3).mono (fun hf => nomatch hf))
+  · exact (closeP4_oc h4).mono (fun hf => nomatch hf)
+
+/-! ### the handler interpreter -/
+
+/-- what holds when the handler has parked on a read -/
+def HandlerParked (r' : AReq) (h' : HState) (t' : Transport) : Prop :=
+  Parked r' t' ∧ ∃ op rest, h'.ops = op :: rest ∧ isReadOp op = true
+
+macro "hp_same" : tactic => `(tactic| first
+  | exact Same.refl _
+  | (have h1 := pollWrite_oc ‹_›; exact h1.same)
+  | (have h1 := pollFlush_oc ‹_›; exact h1.same)
+  | (have h1 := pollInput_oc ‹_›; exact h1.same)
+  | (have h1 := writeablePoll_oc ‹_›; exact h1.same))
+
+theorem handlerPoll_oc : ∀ (fuel : Nat) (r : AReq) (h : HState) (e : Env)
+    {r' : AReq} {h' : HState} {e' : Env} {res : HRes},
+    handlerPoll fuel r h e = (r', h', e', res) →
+    Outcome e.tr e'.tr e'.mutex (hP res) (HandlerParked r' h' e'.tr) := by
+  intro fuel
+  induction fuel with
+  | zero => intro r h e r' h' e' res hh; simp only [handlerPoll] at hh; cases hh; exact Outcome.idle _ _ _
+  | succ n ih =>
+    intro r h e r' h' e' res hh
+    simp only [handlerPoll] at hh
+    rcases hops : h.ops with _ | ⟨op, rest⟩
+    · simp only [hops] at hh; cases hh; exact Outcome.idle _ _ _
+    · simp only [hops] at hh
+      repeat' (split at hh)
+      all_goals first
+        | (cases hh
+           first
+            | (have hpi := pollInput_oc ‹_›
+               first
+                | exact hpi.mono (fun hk => ⟨hk, _, _, hops, rfl⟩)
+                | exact hpi.mono (fun hk => ⟨hk, _, _, rfl, rfl⟩))
+            | (have hpi := writeablePoll_oc ‹_›
+               first
+                | exact hpi.mono (fun hk => ⟨hk, _, _, hops, rfl⟩)
+                | exact hpi.mono (fun hk => ⟨hk, _, _, rfl, rfl⟩))
+            | (have hpi := pollWrite_oc ‹_›; exact hpi.mono (fun hf => nomatch hf))
+            | (have hpi := pollFlush_oc ‹_›; exact hpi.mono (fun hf => nomatch hf))
+            | exact Outcome.idle _ _ _
+            | (refine Outcome.idle' ?_ _ _; hp_same))
+        | (refine Outcome.pre ?_ (ih _ _ _ hh); hp_same)
+
+/-! ## 8. The peer's release step -/
+
+/-- the first withheld segment (if any) has a gate that is not open on the write log -/
+def GateClosed (e : Env) : Prop := ∀ g bs rest, e.segs = (g, bs) :: rest → g.open_ e.tr.wlog = false
+
+theorem release_go_spec : ∀ (fuel : Nat) (e : Env) (any : Bool),
+    (Env.release.go fuel e any).1.mutex = e.mutex ∧
+    (Env.release.go fuel e any).1.tr.woken = e.tr.woken ∧
+    (Env.release.go fuel e any).1.tr.readWaker = e.tr.readWaker ∧
+    (any = true → (Env.release.go fuel e any).2 = true) ∧
+    ((Env.release.go fuel e any).2 = false → (Env.release.go fuel e any).1 = e) ∧
+    (e.segs.length < fuel → GateClosed (Env.release.go fuel e any).1) := by
+  intro fuel
+  induction fuel with
+  | zero =>
+    intro e any
+    unfold Env.release.go
+    exact ⟨rfl, rfl, rfl, id, fun _ => rfl, fun h => absurd h (Nat.not_lt_zero _)⟩
+  | succ n ih =>
+    intro e any
+    obtain ⟨tr, mutex, segs⟩ := e
+    cases segs with
+    | nil =>
+      unfold Env.release.go
+      exact ⟨rfl, rfl, rfl, id, fun _ => rfl, fun _ g bs rest h => nomatch h⟩
+    | cons p rest =>
+      obtain ⟨g, bs⟩ := p
+      simp only [Env.release.go]
+      split
+      · obtain ⟨h1, h2, h3, h4, _, h6⟩ := ih { tr := { tr with input := tr.input ++ bs }, mutex := mutex, segs := rest } true
+        refine ⟨h1, h2, h3, fun _ => h4 rfl, fun hf => ?_, fun hl => h6 ?_⟩
+        · rw [h4 rfl] at hf; cases hf
+        · simp only [List.length_cons] at hl ⊢; omega
+      · rename_i hg
+        refine ⟨rfl, rfl, rfl, id, fun _ => rfl, fun _ g' bs' rest' h => ?_⟩
+        simp only [List.cons.injEq, Prod.mk.injEq] at h
+        obtain ⟨⟨rfl, rfl⟩, rfl⟩ := h
+        simpa using hg
+
+/-- What `Env.release` does to the parts of the environment the executor looks at. -/
+theorem release_spec (e : Env) :
+    e.release.1.mutex = e.mutex ∧
+    e.release.1.tr.woken = (e.tr.woken || (e.release.2 && e.tr.readWaker)) ∧
+    e.release.1.tr.readWaker = (if e.release.2 then false else e.tr.readWaker) ∧
+    (e.release.2 = false → e.release.1.tr.input = e.tr.input ∧ e.release.1.segs = e.segs) ∧
+    GateClosed e.release.1 := by
+  unfold Env.release
+  have := release_go_spec (e.segs.length + 1) e false
+  generalize Env.release.go (e.segs.length + 1) e false = x at this
+  obtain ⟨e', any⟩ := x
+  obtain ⟨h1, h2, h3, _, h5, h6⟩ := this
+  simp only at h1 h2 h3 h5 h6 ⊢
+  refine ⟨h1, by rw [h2, h3], by rw [h3], fun ha => ?_, ?_⟩
+  · rw [h5 ha]; exact ⟨rfl, rfl⟩
+  · intro g bs rest hs
+    exact h6 (Nat.lt_succ_self _) g bs rest hs
+
+theorem prePoll_woken (c : Conn) (n : Nat) (sa : Option Nat) : (prePoll c n sa).env.tr.woken = false := by
+  unfold prePoll
+  have h : ∀ c0 : Conn,
+      (match c0.env.release with
+        | (env, _) => ({ c0 with env := ({ env with tr := { env.tr with woken := false } } : Env).ev s!"|{n}" } : Conn)).env.tr.woken
+          = false := by
+    intro c0
+    generalize c0.env.release = x
+    obtain ⟨e', any⟩ := x
+    rfl
+  split
+  · exact h _
+  · exact h _
+
 end Fcgi.C08Inv
